@@ -14,6 +14,10 @@ for pid in sys.argv[2:]:
         try: m=json.load(open(d+'/meta.json'))
         except Exception: continue
         used.append('- '+m['summary'][:420].replace('\n',' ')+' ...')
+    try:
+        for t in json.load(open('/verif/tools/round7_lost.json')).get(pid,[]):
+            if not t.startswith('('): used.append('- '+t+' ...')
+    except Exception: pass
     wt=f'/tmp/wt-{tag}'; out=f'/tmp/out-{tag}'
     if not os.path.exists(wt):
         subprocess.check_call(['git','-C','/repo','worktree','add','--detach',wt,'HEAD'],stdout=subprocess.DEVNULL,stderr=subprocess.DEVNULL)
